@@ -77,6 +77,10 @@ def check(run):
     for lab, T in structured_transforms(rng, sum(s_.size for s_ in specs)):
         one_case(run, specs, T)
         run.count("transform " + lab)
+    from checks.common import custom_order_family
+    for k in range(2 if run.tier == "quick" else 8):
+        one_case(run, custom_order_family(rng, (2, 1, 3) if k % 2 else (1, 2)))
+        run.count("declared (non-default) Cartesian component order")
     for l in range(6):
         hi = core.exp_cap(l)
         s1 = ShellSpec(l, [0.0, 0.0, 0.0], [hi, 0.02], [[1.0], [0.5]], sph=(l % 2 == 0))
